@@ -1082,3 +1082,48 @@ def ifexp_as_bool(e):
             return ast.fix_missing_locations(ast.copy_location(new, n))
     return X().visit(clone(e))
 
+
+def check_param_positions(ctx, rule, func, callees, what):
+    """A function that hands its own parameters on to itself (recursion) or
+    to a sibling with parameters of the same names: a positional argument
+    that is one of its parameters `p`, or `p + k` / `p - k`, must sit in the
+    position of the callee's parameter `p` (or be passed by that keyword).
+    `callees`: {method name: Func}.  Returns the number of calls examined."""
+    own = set(func.all_param_names())
+    n = 0
+    for c in func.own_nodes():
+        if not (isinstance(c, ast.Call) and isinstance(c.func, ast.Attribute) and
+                c.func.attr in callees and callees[c.func.attr] is not None):
+            continue
+        h = callees[c.func.attr]
+        ps = list(h.params)
+        if h.kind in ("method", "class"):
+            ps = ps[1:]
+        n += 1
+        wrong = None
+        for i, a in enumerate(c.args):
+            base = a
+            if isinstance(a, ast.BinOp) and isinstance(a.op, (ast.Add, ast.Sub)) and \
+                    isinstance(a.right, ast.Constant):
+                base = a.left
+            if isinstance(base, ast.Name) and base.id in own and base.id in ps and \
+                    (i >= len(ps) or ps[i] != base.id):
+                wrong = (text(a), base.id, ps[i] if i < len(ps) else "?")
+        for k in c.keywords:
+            base = k.value
+            if isinstance(base, ast.BinOp) and isinstance(base.op, (ast.Add, ast.Sub)) and \
+                    isinstance(base.right, ast.Constant):
+                base = base.left
+            if k.arg and isinstance(base, ast.Name) and base.id in own and \
+                    base.id in ps and k.arg in ps and k.arg != base.id:
+                wrong = (text(k.value), base.id, k.arg)
+        if wrong:
+            ctx.bad(rule, func, c, "%s: `%s` hands `%s` (its own `%s`) on as the "
+                    "callee's `%s`: the levels below receive the arguments "
+                    "exchanged" % (what, text(c)[:60], wrong[0], wrong[1], wrong[2]),
+                    text_="%s -> %s argument positions" % (func.name, c.func.attr))
+        else:
+            ctx.ok(rule, func, c, "%s: own parameters handed on in their positions" % what,
+                   text_="%s -> %s argument positions" % (func.name, c.func.attr))
+    return n
+
